@@ -25,7 +25,7 @@ structure ReqState (u : UriImpl) where
   body : Bytes
 
 def Request.new (u : UriImpl) : ReqState u :=
-  { phase := .requestLine, totalBytes := 0, method := str "GET", target := u.default, headers := [], body := [] }
+  { phase := .requestLine, totalBytes := 0, method := kGet, target := u.default, headers := [], body := [] }
 
 def defaultCfg (ov : Bool) (tree : Tree) : ReqCfg :=
   { rl := some 1000, hl := some 1000, max := some 10000000, ov := ov, tree := tree }
@@ -86,7 +86,7 @@ def parseMessageForHeaders (cfg : ReqCfg) (s : ReqState u) (raw0 : Bytes) : Out 
   match status with
   | .incomplete => .ok { internal := .incomplete, st := s, consumed := consumed }
   | .complete =>
-    match headerValue hs (str "Content-Length") with
+    match headerValue hs kContentLength with
     | none => .ok { internal := .completeWhole, st := s, consumed := consumed }
     | some v =>
       match parseNumber cfg.tree 10 v with
